@@ -20,6 +20,31 @@ const UAS: [&str; 6] = [
 const LANGS: [&str; 5] = ["en-US,en;q=0.9", "de-DE,de;q=0.8,en;q=0.5", "fr", "es-ES;q=0.7,en;q=0.9", "ja,en;q=0.1"];
 const SERVERS: [&str; 5] = ["Apache/2.4.57 (Debian)", "nginx/1.24.0", "Microsoft-IIS/10.0", "lighttpd/1.4.69", "cloudflare"];
 
+/// An Accept-Language value. Mostly one of a few ordinary ones; one in six is a long list (up to 48 entries)
+/// with every spelling of a quality value a client can put on the wire, including ones that parse as
+/// non-finite numbers or do not parse at all.
+pub fn accept_language(r: &mut Rng) -> String {
+    if !r.chance(1, 6) {
+        return r.pick(&LANGS).to_string();
+    }
+    const TAGS: [&str; 28] = [
+        "en", "en-US", "en-GB", "de", "de-DE", "fr", "fr-FR", "es", "es-ES", "it", "pt", "pt-BR", "nl", "sv", "da", "fi", "pl", "ru", "ja", "ko", "zh", "zh-CN", "zh-TW", "ar", "he", "tr", "cs", "*",
+    ];
+    const QS: [&str; 22] = ["1", "1.0", "0.9", "0.8", "0.7", "0.5", "0.3", "0.1", "0", "0.000", "0.95", "1.000", "NaN", "nan", "inf", "-inf", "-1", "1e3", "1e-40", "", "abc", ".5"];
+    let n = if r.chance(1, 2) { r.urange(21, 48) } else { r.urange(1, 20) };
+    let mut parts = vec![];
+    for _ in 0..n {
+        let t = *r.pick(&TAGS);
+        parts.push(match r.below(8) {
+            0 => t.to_string(),
+            1 => format!("{}; q={}", t, r.pick(&QS)),
+            2 => format!("{};q={};x=1", t, r.pick(&QS)),
+            _ => format!("{};q={}", t, r.pick(&QS)),
+        });
+    }
+    parts.join(if r.chance(1, 2) { "," } else { ", " })
+}
+
 fn token(r: &mut Rng, n: usize) -> String {
     const A: &[u8] = b"abcdefghijklmnopqrstuvwxyz0123456789";
     (0..n).map(|_| A[r.usize_below(A.len())] as char).collect()
@@ -72,7 +97,7 @@ pub fn request(r: &mut Rng, max_body: usize) -> Msg {
         lines.push("Accept: text/html,application/xhtml+xml,*/*;q=0.8".to_string());
     }
     if r.chance(2, 3) {
-        lines.push(format!("Accept-Language: {}", r.pick(&LANGS)));
+        lines.push(format!("Accept-Language: {}", accept_language(r)));
     }
     if r.chance(2, 3) {
         lines.push("Accept-Encoding: gzip, deflate".to_string());
